@@ -12,6 +12,7 @@ mod vcd;
 mod fstw;
 mod hier;
 mod detect;
+mod slice;
 
 fn dispatch(cmd: &str, args: &[&str]) -> String {
     match cmd {
@@ -21,6 +22,8 @@ fn dispatch(cmd: &str, args: &[&str]) -> String {
         "fstw" => fstw::run(args),
         "hier" => hier::run(args),
         "detect" => detect::run(args),
+        "slice" => slice::run(args),
+        "ghwslices" => slice::run_ghw(args),
         "detectc" => detect::run_cursor(args),
         "vcd" => vcd::run_vcd(args),
         _ => "UNSUPPORTED".to_string(),
